@@ -584,6 +584,12 @@ func NewRig(o RigOpts) (*Rig, error) {
 	}
 	sortStrings(names)
 	for _, n := range names {
+		if o.Channels[n] == "socks" {
+			// the built-in SOCKS5 channel: no target of its own, the application names one in its SOCKS request
+			channels = append(channels, &server.SocksChannel{AbstractChannel: server.AbstractChannel{
+				ProtoName: addr.ProtoName{Name: n}, Address: addr.MustParseAddress("socks://localhost")}})
+			continue
+		}
 		t, err := NewTarget(o.Channels[n])
 		if err != nil {
 			return nil, err
